@@ -104,16 +104,36 @@ def _cargo_json_build(crate_dir, target_dir, extra=(), timeout=900, env=None):
     return rc == 0, "\n".join(rendered), arts
 
 
+def _host_dirs():
+    """(manifest dir, target dir) of the harness-api build for vlib.REPO.  For the default /repo the manifest is
+    /verif/harness-api/Cargo.toml (generated from the template).  For a scratch copy (VERIF_REPO) the manifest is
+    generated into its own directory under .build, with its own target dir: several checks running at the same
+    time against DIFFERENT trees would otherwise rewrite one shared Cargo.toml under each other (and one of them
+    would be judged against the other's rlib)."""
+    repo = os.path.abspath(vlib.REPO)
+    tmpl = open(os.path.join(HARNESS_DIR, "Cargo.toml.tmpl")).read().replace("@REPO@", repo)
+    if repo == "/repo":
+        _write_if_changed(os.path.join(HARNESS_DIR, "Cargo.toml"), tmpl)
+        return HARNESS_DIR, os.path.join(API_BUILD, "host")
+    key = hashlib.sha256(repo.encode()).hexdigest()[:12]
+    mdir = os.path.join(API_BUILD, "host-" + key)
+    src = os.path.join(HARNESS_DIR, "src")
+    bins = sorted(f[:-3] for f in os.listdir(os.path.join(src, "bin")) if f.endswith(".rs"))
+    extra = '\n[lib]\nname = "harness_api"\npath = "%s"\n' % os.path.join(src, "lib.rs")
+    for b in bins:
+        extra += '\n[[bin]]\nname = "%s"\npath = "%s"\n' % (b, os.path.join(src, "bin", b + ".rs"))
+    _write_if_changed(os.path.join(mdir, "Cargo.toml"), tmpl.replace("[workspace]", "autobins = false\n\n[workspace]", 1) + extra)
+    return mdir, os.path.join(mdir, "target")
+
+
 def host_build():
     """Build /verif/harness-api (lib + bins) against vlib.REPO. Returns (ok, detail, info) with
     info = {rlib, deps, bins{name: path}}. Memoised per repo content hash within one process."""
     key = ("host", vlib.repo_hash())
     if key in _memo:
         return _memo[key]
-    tmpl = open(os.path.join(HARNESS_DIR, "Cargo.toml.tmpl")).read()
-    _write_if_changed(os.path.join(HARNESS_DIR, "Cargo.toml"), tmpl.replace("@REPO@", os.path.abspath(vlib.REPO)))
-    tdir = os.path.join(API_BUILD, "host")
-    ok, text, arts = _cargo_json_build(HARNESS_DIR, tdir, extra=["--lib"])
+    mdir, tdir = _host_dirs()
+    ok, text, arts = _cargo_json_build(mdir, tdir, extra=["--lib"])
     info = {}
     if ok:
         rl = [f for f in arts.get("gc_arena", []) if f.endswith(".rlib")]
@@ -136,8 +156,8 @@ def harness_bin(name, release=False):
     ok, text, _ = host_build()
     if not ok:
         return False, text, None
-    ok, text, arts = _cargo_json_build(HARNESS_DIR, os.path.join(API_BUILD, "host"),
-                                       extra=["--bin", name] + (["--release"] if release else []))
+    mdir, tdir = _host_dirs()
+    ok, text, arts = _cargo_json_build(mdir, tdir, extra=["--bin", name] + (["--release"] if release else []))
     exe = (arts.get(name + "#exe") or [None])[0]
     res = (ok and exe is not None, text[-6000:], exe)
     _memo[key] = res
